@@ -59,6 +59,7 @@ def directed_cases(seed: int, tier: str) -> typing.List[dict]:
         ("nstypes", {"ns_types": True}),
         ("user-support", {"support_templates": "override"}),
         ("user-templates", {"templates": "by_kind", "ns_types": True}),
+        ("user-templates-same-names", {"templates": "dup_names"}),
         ("lookup-deps", {"want_lookup": True}),
         ("ext-stem", {"ext": ".inc", "ns_stem": "nsfile", "ns_types": True}),
     ]
